@@ -172,6 +172,18 @@ func GenSelect(t *rapid.T, kind StoreKind, pairs []Pair, o SelOpts) *Stmt {
 					}
 				}
 				dup := false
+				if f.Alias != "" && len(usedNames[e.T]) > 0 && rapid.IntRange(0, 11).Draw(t, "caseVariantName") == 0 {
+					// a name that differs from an earlier one only in the case of
+					// its letters is another name (t1 and `T1`)
+					earlier := rapid.SampledFrom(usedNames[e.T]).Draw(t, "caseVariantOf")
+					variant := strings.ToUpper(earlier)
+					if variant == earlier {
+						variant = strings.ToLower(earlier)
+					}
+					if _, taken := c.Defs[variant]; !taken && variant != earlier {
+						f.Alias = variant
+					}
+				}
 				if f.Alias != "" && len(usedNames[e.T]) > 0 && rapid.IntRange(0, 9).Draw(t, "repeatName") == 0 {
 					// a later field may repeat the name of an earlier field (of
 					// the same type, so that the name stays as orderable as the
